@@ -61,6 +61,12 @@ def passed_value(repo, mod, scope, call, pname, pos=None):
   v = astu.kwarg(call, pname)
   if v is not None:
     return YES, v
+  splat = splat_keywords(scope, call) if astu.has_star_kwargs(call) else None
+  if splat is not None and not any(isinstance(a, ast.Starred) for a in call.args):
+    # f(..., **opts) with `opts = dict(a=x, b=y)` bound once and only ever splatted: the keywords are known
+    if pname in splat:
+      return YES, splat[pname]
+    call = _without_splat(call)
   if astu.has_star_kwargs(call) or any(isinstance(a, ast.Starred) for a in call.args):
     # a positional index before the first starred argument is still certain
     if pos is not None and pos < len(call.args) and not any(isinstance(a, ast.Starred) for a in call.args[:pos + 1]):
@@ -91,6 +97,48 @@ def passed_value(repo, mod, scope, call, pname, pos=None):
       return YES, call.args[pos]
     return NO, None
   return UNKNOWN, None
+
+
+def _without_splat(call):
+  c = ast.Call(func=call.func, args=call.args, keywords=[k for k in call.keywords if k.arg is not None])
+  ast.copy_location(c, call)
+  par = astu.parent(call)
+  if par is not None:
+    c._vf_parent = par
+  return c
+
+
+def splat_keywords(scope, call):
+  """{name: expr} for the `**x` arguments of a call when every x is a local bound exactly once to `dict(k=v, ...)` /
+  `{'k': v, ...}` and used only in `**x` positions; None when any of them cannot be resolved."""
+  node = getattr(scope, 'node', None)
+  if node is None:
+    return None
+  out = {}
+  for k in call.keywords:
+    if k.arg is not None:
+      continue
+    if not isinstance(k.value, ast.Name):
+      return None
+    name = k.value.id
+    ds = flow.defs(scope, name)
+    if len(ds) != 1 or not isinstance(ds[0][0], ast.AST):
+      return None
+    d = ds[0][0]
+    if isinstance(d, ast.Call) and astu.call_name(d) == 'dict' and not d.args and all(kw.arg is not None for kw in d.keywords):
+      items = {kw.arg: kw.value for kw in d.keywords}
+    elif isinstance(d, ast.Dict) and all(k_ is not None and astu.const_str(k_) is not None for k_ in d.keys):
+      items = {astu.const_str(k_): v_ for k_, v_ in zip(d.keys, d.values)}
+    else:
+      return None
+    # the mapping must not be modified between its creation and the call: every other mention is a `**name` splat
+    for n in astu.body_walk(node):
+      if isinstance(n, ast.Name) and n.id == name and isinstance(n.ctx, ast.Load):
+        par = astu.parent(n)
+        if not (isinstance(par, ast.keyword) and par.arg is None):
+          return None
+    out.update(items)
+  return out
 
 
 def forwarded(repo, mod, scope, call, name, callee_param=None, pos=None, func=None):
@@ -786,3 +834,66 @@ def neg_kind_pred(var, kind):
 def kind_edges(c, var, kind):
   """CFG edges on which `var` is known to be of `kind` (either polarity of the test)."""
   return est_edges(c, kind_pred(var, kind)) + est_edges(c, neg_kind_pred(var, kind), negative=True)
+
+
+# ----------------------------------------------------------------------------------------------
+# how deep does an expression copy its operand?
+
+DEEP, SHALLOW, ALIAS = 'deep', 'shallow', 'alias'
+
+
+def _identity_lambda(e):
+  return isinstance(e, ast.Lambda) and len(astu.params(e)) == 1 and isinstance(e.body, ast.Name) and e.body.id == astu.params(e)[0]
+
+
+def copy_depth(func, expr, depth=0):
+  """(kind, source, witness): how `expr` relates to the container it is built from.
+
+  DEEP    every nested container is rebuilt (tree_map(identity) / deepcopy / unfreeze / freeze / to_state_dict-like)
+  SHALLOW a finite number of levels is rebuilt (dict(x), x.copy(), {**x}, {k: v for k, v in x.items()}, {k: dict(v) ...})
+  ALIAS   the very object (a plain name / attribute / subscript / parameter / `.get_metadata()`-style accessor is *not* decided here)
+  None    not recognised
+  `source` is the operand expression, `witness` the sub-expression that decided."""
+  if depth > 5 or expr is None:
+    return None, None, None
+  e = expr
+  if isinstance(e, ast.Name):
+    ds = [d[0] for d in flow.defs(func, e.id)]
+    asts = [d for d in ds if isinstance(d, ast.AST)]
+    if len(ds) == 1 and len(asts) == 1:
+      return copy_depth(func, asts[0], depth + 1)
+    if not ds or all(isinstance(d, tuple) and d and d[0] == 'param' for d in ds):
+      return ALIAS, e, e
+    # rebound several times (x = {}; x.update(..); x = tree_map(id, x)): judge the last plain definition textually
+    if asts:
+      last = max(asts, key=lambda a: (getattr(a, 'lineno', 0), getattr(a, 'col_offset', 0)))
+      if not (isinstance(last, ast.Name) and last.id == e.id):
+        k, s_, w = copy_depth(func, last, depth + 1)
+        if k in (DEEP, SHALLOW):
+          return k, s_, w
+    return None, None, None
+  if isinstance(e, (ast.Attribute, ast.Subscript)):
+    return ALIAS, e, e
+  if isinstance(e, ast.Call):
+    tail = astu.call_tail(e) or ''
+    name = astu.call_name(e) or ''
+    if tail in ('tree_map', 'map') and ('tree' in name) and len(e.args) >= 2 and _identity_lambda(e.args[0]):
+      return DEEP, e.args[1], e
+    if tail == 'deepcopy' and e.args:
+      return DEEP, e.args[0], e
+    if tail in ('unfreeze', 'freeze') and e.args:
+      return DEEP, e.args[0], e
+    if name in ('dict', 'list', 'set', 'OrderedDict', 'collections.OrderedDict') and len(e.args) == 1 and not e.keywords:
+      return SHALLOW, e.args[0], e
+    if tail == 'copy' and isinstance(e.func, ast.Attribute) and not e.args and name not in ('copy.copy',):
+      return SHALLOW, e.func.value, e
+    if name == 'copy.copy' and e.args:
+      return SHALLOW, e.args[0], e
+    return None, None, None
+  if isinstance(e, ast.Dict) and e.keys and all(k is None for k in e.keys) and len(e.values) == 1:
+    return SHALLOW, e.values[0], e
+  if isinstance(e, ast.DictComp) and len(e.generators) == 1:
+    g = e.generators[0]
+    if isinstance(g.iter, ast.Call) and astu.call_tail(g.iter) == 'items' and isinstance(g.iter.func, ast.Attribute):
+      return SHALLOW, g.iter.func.value, e
+  return None, None, None
